@@ -7,6 +7,8 @@
 package c03
 
 import (
+	"encoding/base64"
+	"encoding/json"
 	"fmt"
 	"strings"
 	"time"
@@ -31,6 +33,8 @@ func init() {
 			{Name: "chains", Run: runChains},
 			{Name: "forheaders", Run: runForHeaders},
 			{Name: "noin", Run: runNoIn},
+			{Name: "spellings", Run: runSpellings},
+			{Name: "comments", Run: runComments},
 			{Name: "statements", Run: runStatements},
 			{Name: "nesting", Run: runNesting},
 			{Name: "asi", Run: runASI},
@@ -58,6 +62,10 @@ func init() {
 		q := q
 		engine.RegisterSignature("c03-"+q.String(), func(m *engine.Mismatch) bool { return quirkExplains(m, q) })
 	}
+	engine.RegisterSignature("c03-inline-sourcemap", func(m *engine.Mismatch) bool {
+		src, ok := m.Input.(string)
+		return ok && m.Observed == "reject" && m.Expected != "reject" && BadInlineSourceMap(src)
+	})
 	engine.RegisterSignature("c03-int64-literal", sigInt64Literal)
 	engine.RegisterSignature("c03-octal-literal-as-decimal", sigOctalAsDecimal)
 	engine.RegisterSignature("c03-hex-literal-stepwise-rounding", sigHexStepwise)
@@ -91,6 +99,30 @@ func quirkExplains(m *engine.Mismatch, q syntax.Quirk) bool {
 		}
 	}
 	return false
+}
+
+// BadInlineSourceMap: the last line of src is a `//# sourceMappingURL=data:application/json...,`
+// comment whose payload decodes as base64 but is not a version-3 source map
+// (the alternative model of F-C03-016 / F-C04-027: otto returns the source-map
+// error instead of parsing the program).
+func BadInlineSourceMap(src string) bool {
+	lines := strings.Split(src, "\n")
+	last := lines[len(lines)-1]
+	if !strings.HasPrefix(last, "//# sourceMappingURL=data:application/json") {
+		return false
+	}
+	_, payload, ok := strings.Cut(last, ",")
+	if !ok {
+		return false
+	}
+	raw, err := base64.StdEncoding.DecodeString(payload)
+	if err != nil {
+		return false
+	}
+	var m struct {
+		Version int `json:"version"`
+	}
+	return json.Unmarshal(raw, &m) != nil || m.Version != 3
 }
 
 // Observe runs otto's parser on src and renders the outcome: the converted
